@@ -104,6 +104,8 @@ def _backend_files(crate):
 _reg(Group("v4", gen=_gen_backend(_backend_files("paseto-v4")), stubbing=True))
 _reg(Group("v3", gen=_gen_backend(_backend_files("paseto-v3")), stubbing=True))
 _reg(Group("v2", gen=_gen_backend(_backend_files("paseto-v2")), stubbing=True))
+_reg(Group("v3awslc", gen=_gen_backend(_backend_files("paseto-v3-aws-lc")), stubbing=True))
+_reg(Group("v4sodium", gen=_gen_backend(_backend_files("paseto-v4-sodium")), stubbing=True))
 
 def _gen_json(g):
     g.encoded_files = []
@@ -239,11 +241,15 @@ def l2_backend(name, group, aad, sizes, quick=True, paserk=True, pke=True, publi
     # C04
     for n in ["local_unseal_arbitrary_n0", "local_unseal_arbitrary_below", "local_unseal_arbitrary_min", "local_unseal_arbitrary_above"] + (
             ["public_unseal_arbitrary_n0", "public_unseal_arbitrary_below", "public_unseal_arbitrary_above"] if public else []):
-        out["C04"].append(H(group, P + n, q if n.endswith(("_below", "_min")) else "t", timeout=1500, mem=14, mode="full", replay="none",
-                            doc="%s: unseal of arbitrary payload bytes of this length, every Kani memory-safety/panic/overflow check on" % name))
+        base = (sizes["nonce"] + sizes["tag"]) if n.startswith("local") else sizes["sig"]
+        ln = {"n0": 0, "below": base - 1, "min": base, "above": base + (2 if n.startswith("local") else 1)}[n.rsplit("_", 1)[1]]
+        out["C04"].append(H(group, P + n, q if n.endswith(("_below", "_min")) else "t", timeout=1500, mem=14, mode="full", replay="native:arbitrary_len", schema=[],
+                            replay_args={"backend": name, "op": n.split("_")[0], "n": ln},
+                            doc="%s: unseal of arbitrary payload bytes of length %d, every Kani memory-safety/panic/overflow check on" % (name, ln)))
     # C16
     for n in ["local_rng_fail_closed_"] + (["public_rng_fail_closed_"] if public else []):
-        out["C16"].append(H(group, P + n, q, timeout=900, mem=10, mode="lean", replay="none",
+        out["C16"].append(H(group, P + n, q, timeout=900, mem=10, mode="lean", replay="native:rng_fail", schema=[],
+                            replay_args={"backend": name, "op": "local_seal" if n.startswith("local") else "random_secret", "at": 0},
                             doc="%s: RNG failure at the draw of nonce()/random() is returned as Err, nothing is produced" % name))
     if paserk:
         for n, kind in (("pie_roundtrip_local", "local"), ("pie_roundtrip_secret", "secret")):
@@ -255,9 +261,12 @@ def l2_backend(name, group, aad, sizes, quick=True, paserk=True, pke=True, publi
             out["C06"].append(H(group, P + n, q if w in (0, 1) else "t", timeout=1500, mem=14, mode="lean", replay="native:pie",
                                 schema=TOK + [("wkey", "bytes:32"), ("kd", "bytes:32")], replay_args={"backend": name, "kind": "local", "w": w},
                                 doc="%s PIE: tamper class %s must be rejected" % (name, n[11:])))
-        out["C16"].append(H(group, P + "pie_rng_fail_closed_", q, timeout=900, mem=10, mode="lean", replay="none", doc="%s PIE: RNG failure => Err" % name))
+        out["C16"].append(H(group, P + "pie_rng_fail_closed_", q, timeout=900, mem=10, mode="lean", replay="native:rng_fail", schema=[],
+                            replay_args={"backend": name, "op": "pie", "at": 0}, doc="%s PIE: RNG failure => Err" % name))
         for n in ("pie_unwrap_arbitrary_n0", "pie_unwrap_arbitrary_below", "pie_unwrap_arbitrary_above"):
-            out["C04"].append(H(group, P + n, q if n.endswith("_below") else "t", timeout=1500, mem=14, mode="full", replay="none", doc="%s: pie_unwrap_key on arbitrary bytes" % name))
+            ln = {"n0": 0, "below": sizes["pie_over"] - 1, "above": sizes["pie_over"] + 1}[n.rsplit("_", 1)[1]]
+            out["C04"].append(H(group, P + n, q if n.endswith("_below") else "t", timeout=1500, mem=14, mode="full", replay="native:arbitrary_len", schema=[],
+                                replay_args={"backend": name, "op": "pie", "n": ln}, doc="%s: pie_unwrap_key on arbitrary bytes of length %d" % (name, ln)))
         out["C05"].append(H(group, P + "pw_roundtrip_local_default", q, timeout=1500, mem=14, mode="lean", replay="native:pw",
                             schema=[("pass", "bytes:24"), ("kd", "bytes:32")], replay_args={"backend": name, "kind": "local", "w": 255, "passlen": 2},
                             doc="%s PBKW local, default parameters, 2-byte password" % name))
@@ -274,7 +283,9 @@ def l2_backend(name, group, aad, sizes, quick=True, paserk=True, pke=True, publi
                                 schema=TOK + [("pass", "bytes:2"), ("kd", "bytes:32")], replay_args={"backend": name, "kind": "local", "w": w},
                                 doc="%s PBKW: tamper class %s must be rejected" % (name, n[10:])))
         for n in ("pw_unwrap_arbitrary_n0", "pw_unwrap_arbitrary_below", "pw_unwrap_arbitrary_above"):
-            out["C04"].append(H(group, P + n, q if n.endswith("_below") else "t", timeout=1500, mem=14, mode="full", replay="none", doc="%s: get_params + pw_unwrap_key on arbitrary bytes" % name))
+            ln = {"n0": 0, "below": sizes["pw_over"] - 1, "above": sizes["pw_over"] + 1}[n.rsplit("_", 1)[1]]
+            out["C04"].append(H(group, P + n, q if n.endswith("_below") else "t", timeout=1500, mem=14, mode="full", replay="native:arbitrary_len", schema=[],
+                                replay_args={"backend": name, "op": "pw", "n": ln}, doc="%s: get_params + pw_unwrap_key on arbitrary bytes of length %d" % (name, ln)))
     if pke:
         out["C05"].append(H(group, P + "pke_roundtrip_", q, timeout=1800, mem=14, mode="lean", replay="native:pke", schema=[],
                             replay_args={"backend": name, "w": 255, "out_len": sizes["pke_len"], "loops": sizes.get("pke_loops", 300)},
@@ -283,18 +294,22 @@ def l2_backend(name, group, aad, sizes, quick=True, paserk=True, pke=True, publi
             out["C06"].append(H(group, P + n, q if w == 0 else "t", timeout=1800, mem=14, mode="lean", replay="native:pke", schema=TOK,
                                 replay_args={"backend": name, "w": w}, doc="%s PKE: tamper class %s must be rejected" % (name, n[11:])))
         for n in ("pke_unseal_arbitrary_below", "pke_unseal_arbitrary_exact", "pke_unseal_arbitrary_above"):
-            out["C04"].append(H(group, P + n, q if n.endswith("_exact") else "t", timeout=1800, mem=14, mode="full", replay="none", doc="%s: unseal_key on arbitrary bytes" % name))
+            ln = sizes["pke_len"] + {"below": -1, "exact": 0, "above": 1}[n.rsplit("_", 1)[1]]
+            out["C04"].append(H(group, P + n, q if n.endswith("_exact") else "t", timeout=1800, mem=14, mode="full", replay="native:arbitrary_len", schema=[],
+                                replay_args={"backend": name, "op": "pke", "n": ln}, doc="%s: unseal_key on arbitrary bytes of length %d" % (name, ln)))
     for k, hs in (extra or {}).items():
         out[k] += hs
     BACKENDS[name] = out
     return out
 
 
-_v4 = l2_backend("v4", "v4", True, {"secret_len": 64, "pke_len": 96}, extra={
+_EXTRA16 = lambda g, nm: {"C16": [
+    H(g, "proofs::pw_rng_fail_closed_at0", "qt", timeout=900, mode="lean", replay="native:rng_fail", schema=[], replay_args={"backend": nm, "op": "pw", "at": 0}, doc="%s PBKW: failure of the salt draw only => Err" % nm),
+    H(g, "proofs::pw_rng_fail_closed_at1", "qt", timeout=900, mode="lean", replay="native:rng_fail", schema=[], replay_args={"backend": nm, "op": "pw", "at": 1}, doc="%s PBKW: failure of the nonce draw only => Err" % nm),
+    H(g, "proofs::pke_rng_fail_closed_", "qt", timeout=1200, mode="lean", replay="native:rng_fail", schema=[], replay_args={"backend": nm, "op": "pke", "at": 0}, doc="%s PKE: failure of the ephemeral-key draw => Err" % nm)]}
+_v4 = l2_backend("v4", "v4", True, {"secret_len": 64, "pke_len": 96, "nonce": 32, "tag": 32, "sig": 64, "pie_over": 64, "pw_over": 88}, extra={
     "C16": [H("v4", "proofs::local_nonce_is_draw_", "qt", timeout=600, mode="lean", replay="none", doc="v4: the token nonce is exactly the drawn randomness (freshness inherited from the RNG)"),
-            H("v4", "proofs::pw_rng_fail_closed_at0", "qt", timeout=600, mode="lean", replay="none", doc="v4 PBKW: failure of the salt draw => Err"),
-            H("v4", "proofs::pw_rng_fail_closed_at1", "qt", timeout=600, mode="lean", replay="none", doc="v4 PBKW: failure of the nonce draw => Err"),
-            H("v4", "proofs::pke_rng_fail_closed_", "qt", timeout=900, mode="lean", replay="none", doc="v4 PKE: failure of the ephemeral-key draw => Err")]})
+            ] + _EXTRA16("v4", "v4")["C16"]})
 
 
 # ------------------------------------------------------------------------------------------------
@@ -498,13 +513,13 @@ def _demote(tab, keep):
 
 
 _EXTRA16 = lambda g, nm: {"C16": [
-    H(g, "proofs::pw_rng_fail_closed_at0", "qt", timeout=900, mode="lean", replay="none", doc="%s PBKW: failure of the salt draw => Err" % nm),
-    H(g, "proofs::pw_rng_fail_closed_at1", "qt", timeout=900, mode="lean", replay="none", doc="%s PBKW: failure of the nonce draw => Err" % nm),
-    H(g, "proofs::pke_rng_fail_closed_", "qt", timeout=1200, mode="lean", replay="none", doc="%s PKE: failure of the ephemeral-key draw => Err" % nm)]}
+    H(g, "proofs::pw_rng_fail_closed_at0", "qt", timeout=900, mode="lean", replay="native:rng_fail", schema=[], replay_args={"backend": nm, "op": "pw", "at": 0}, doc="%s PBKW: failure of the salt draw only => Err" % nm),
+    H(g, "proofs::pw_rng_fail_closed_at1", "qt", timeout=900, mode="lean", replay="native:rng_fail", schema=[], replay_args={"backend": nm, "op": "pw", "at": 1}, doc="%s PBKW: failure of the nonce draw only => Err" % nm),
+    H(g, "proofs::pke_rng_fail_closed_", "qt", timeout=1200, mode="lean", replay="native:rng_fail", schema=[], replay_args={"backend": nm, "op": "pke", "at": 0}, doc="%s PKE: failure of the ephemeral-key draw => Err" % nm)]}
 _x3 = _EXTRA16("v3", "v3")
 _x3["C16"].append(H("v3", "proofs::local_nonce_is_draw_", "qt", timeout=600, mode="lean", replay="none", doc="v3: the token nonce is exactly the drawn randomness"))
-_v3 = l2_backend("v3", "v3", True, {"secret_len": 48, "pke_len": 129}, extra=_x3)
-_v2 = l2_backend("v2", "v2", False, {"secret_len": 64, "pke_len": 96}, extra=_EXTRA16("v2", "v2"))
+_v3 = l2_backend("v3", "v3", True, {"secret_len": 48, "pke_len": 129, "nonce": 32, "tag": 48, "sig": 96, "pie_over": 80, "pw_over": 100}, extra=_x3)
+_v2 = l2_backend("v2", "v2", False, {"secret_len": 64, "pke_len": 96, "nonce": 24, "tag": 16, "sig": 64, "pie_over": 64, "pw_over": 88}, extra=_EXTRA16("v2", "v2"))
 # quick tiers: measured costs (14 parallel jobs): v4/v2 token harness ~4 min, v3 token harness ~10-14 min (real ctr crate),
 # PKE ~10 min, PBKW >10 min / >16 GB -> PBKW round-trip and tamper harnesses are thorough-only
 _PBKW_T = ["pw_roundtrip", "pw_tamper", "pw_default_must"]
@@ -527,3 +542,30 @@ for _h in PROPS["C04"].harnesses + PROPS["C09"].harnesses:
                 "pie_local_t3", "pw_local_t3", "seal_t3", "token_p4_nodot", "token_p4_dot_f0", "key_fromstr_is_keytext_then_decode", "l3_unseal_exact_p3_f0_a0")))
         if not keep:
             _h.tiers = "t"
+
+# ------------------------------------------------------------------------------------------------
+# C03 / C07: transcript conformance (partial claims, stated)
+# ------------------------------------------------------------------------------------------------
+PROPS["C03"] = Prop(
+    "C03", [
+        H("v3", "proofs::c03_local_ctr_counter_128bit", "qt", timeout=1800, mem=14, mode="lean", replay="native:ctr_pbkw", schema=[], replay_args={},
+          doc="paseto-v3 local: with key, nonce (hence derived IV) and a 17-byte message symbolic, the two blocks fed to AES are IV and IV+1 mod 2^128 (full-width big-endian counter, as OpenSSL/aws-lc)"),
+        H("v4", "proofs::c03_local_transcript", "qt", timeout=1500, mem=14, mode="lean", replay="none",
+          doc="paseto-v4 local: for every key/nonce/message/footer/assertion the four primitive calls (two keyed BLAKE2b derivations with the spec's domain strings, XChaCha20 keyed Ek/n2, BLAKE2b-MAC over PAE(h,n,c,f,i)) and the token layout n‖c‖t are exactly the spec's"),
+    ],
+    explanation="Real ciphertext bytes cannot be compared inside an ideal-primitive model, but what is fed to each primitive can, for all inputs: the harness reads the oracle's call log (and the AES model's block log, driven by the REAL ctr crate) and compares it with a reference written from the PASETO specification. PARTIAL CLAIM: built for paseto-v4 local (full transcript) and the AES-CTR counter width of paseto-v3 local; the other backends' transcripts, public tokens, and byte-level agreement of the libraries themselves are not claimed.",
+    functions=["paseto_v4::core::local::{dangerous_seal_with_nonce, keys, preauth_local}, paseto_v4::core::kdf", "paseto_v3::core::local::{dangerous_seal_with_nonce, keys} + ctr::Ctr64BE (real crate)"],
+    bounds={"quick": "v4: |m|=3 |f|=2 |a|=1, all keys and nonces; v3: 17-byte message (two AES blocks), all keys and nonces", "thorough": "same"},
+    outside=["v1/v2/aws-lc/sodium transcripts; signature encodings; 'same primitive => same function' across libraries is an assumption, not a result"],
+    models=L2_MODELS + ["aes model logs every block it is asked to encrypt; the counter sequence is produced by the real ctr crate"], assumptions=L2_ASSUME)
+
+PROPS["C07"] = Prop(
+    "C07", [
+        H("v3", "proofs::c07_pie_ctr_counter_128bit", "qt", timeout=1800, mem=14, mode="lean", replay="native:ctr_pbkw", schema=[], replay_args={},
+          doc="paseto-v3 PIE wrap of a 32-byte key (two AES blocks): the blocks fed to AES are IV and IV+1 mod 2^128"),
+    ],
+    explanation="PARTIAL CLAIM: the AES-CTR counter width used by PASERK wrapping in paseto-v3 (the same cipher type is used by PIE, PBKW and PKE) is checked against the spec's full-width big-endian counter for every wrapping key, nonce and wrapped key; a counterexample is replayed end-to-end as a spec-conforming k3.local-pw blob (built natively from the real pbkdf2/hmac/sha2/aes/ctr crates with a 128-bit counter) that paseto-v3 and paseto-v3-aws-lc must both unwrap to the wrapped key. Derivation/tag transcripts of the other wraps and parameter-domain agreement between siblings are not claimed.",
+    functions=["paseto_v3::core::pie_wrap::{pie_wrap_key, wrap_keys} + ctr::Ctr64BE (real crate)"],
+    bounds={"quick": "32-byte wrapped key, all wrapping keys and nonces", "thorough": "same"},
+    outside=["PBKW/PKE derivation transcripts; v1, v2, v4 and the FFI backends; KDF parameter domains"],
+    models=L2_MODELS, assumptions=L2_ASSUME)
